@@ -6,7 +6,7 @@ Require Import Bytes Schema Codec Session SessionProofs.
 Import ListNotations.
 
 (* for EVERY byte stream: handler invocations and responses occur only inside iterations whose
-   message decoded completely (dec_top = Ok) and was admitted (count consistent, not asynchronous,
+   message decoded completely (dec_top = Ok) and was cleared (count consistent, not asynchronous,
    credentials accepted); the first message that is not is followed by Close and nothing else *)
 Theorem C10_step : forall T K c st script,
   let '(evs, k) := request_step T K c st script in step_result T K c st script evs k.
